@@ -48,6 +48,7 @@ type Join struct {
 	DstInit []world.Spec `json:"dst_init"`
 	Acts    []JAct       `json:"acts"`
 	Cycles  int          `json:"cycles"` // additional create/close cycles over the long-lived base controllers
+	CloseDst bool        `json:"close_dst"` // finally close the destination base while a join is alive: the join must go down with it (C11 for joins)
 	Sim     SimCfg       `json:"sim"`
 }
 
@@ -588,6 +589,21 @@ func runJoin(sci interface{}) {
 	for c := 1; c <= sc.Cycles; c++ {
 		e.oneJoin(nil, c)
 	}
+	if sc.CloseDst {
+		// shutdown cascades down into a join: closing the destination base closes
+		// the join result (its descendant) and everything the join created
+		rv, err := e.mk()
+		if err != nil {
+			detsim.Fail("api-error", "creating the join over running controllers: %v", err)
+		}
+		detsim.Settle()
+		dst := e.bases[len(e.bases)-1]
+		dst.Close()
+		if !world.WaitClosed(rv.done(), time.Millisecond) {
+			detsim.Fail("shutdown-not-cascaded", "the destination controller was closed but the join built on it is still running\n%s", dumpLive())
+		}
+		rv.list() // must return (ErrNotRunning or a result), never block
+	}
 	// the long-lived bases still work: shut them down cleanly
 	for _, b := range e.bases {
 		b.Close()
@@ -680,6 +696,7 @@ func genC09(g GenCtx) interface{} {
 			sc.Acts = append(sc.Acts, JAct{Op: "check"})
 		}
 	}
+	sc.CloseDst = rng.Intn(3) == 0
 	if rng.Intn(3) == 0 {
 		sc.Cycles = 1 + rng.Intn(20)
 		if rng.Intn(2) == 0 {
